@@ -131,8 +131,10 @@ func ReadEmbeddedConfig(binaryPath string) ([]byte, error) {
 		return nil, ErrNoEmbeddedConfig
 	}
 
-	// Validate config length doesn't exceed file boundaries
-	if int64(configLen) > fileSize-FooterSize {
+	// Validate config length doesn't exceed file boundaries. The comparison is
+	// done on the unsigned value: converting first would turn lengths >= 2^63
+	// into negative numbers that pass the check. fileSize >= FooterSize here.
+	if configLen > uint64(fileSize-FooterSize) {
 		return nil, ErrConfigTooLarge
 	}
 
